@@ -84,6 +84,9 @@ func c01() int {
 	seqN, seqSteps := scriptSequences(rep, "")
 	cov["script_sequences"], cov["script_sequence_steps"] = seqN, seqSteps
 	cov["resource_limit_cases"] = resourceLimit(rep, "")
+	// scripts on the REAL store, against the stand-in stores of the enumerations above (realstore.go)
+	rsH, rsS := realStoreConformance(rep, "")
+	cov["realstore_histories"], cov["realstore_steps"] = rsH, rsS
 	return rep.Finish(cov)
 }
 
